@@ -10,6 +10,8 @@ CONSTANTS
   AnyMaxHist = 4
   AnyMaxLen = 2
   AnyMaxSteps = 8
+  AnyFaults = TRUE
+  MaxFaults = 1
 INVARIANTS TypeOK OldOrNew NoEarlyExposure
 POSTCONDITION Accepted
 CHECK_DEADLOCK FALSE
